@@ -229,6 +229,14 @@ def run(c):
     r = c.absorb_go(outpath, output)
     if rc != 0 and not r.get("violations"):
         raise vlib.Infra("harness failed:\n" + output[-3000:])
+    # the account value of the model is a record in the code: the model's PutAccount / "reads see the most recent write" at
+    # the grain of the fields of types.State (every field x every other field changed x route through the working copy)
+    foutpath = os.path.join(c.work, "sb_fields_out.json")
+    rcf, outputf = vlib.go_test("./state/", "^TestVerifStateFields$", env={"VERIF_IN": inpath, "VERIF_OUT": foutpath,
+                                "VERIF_SEED": c.seed, "VERIF_TIER": c.tier}, timeout=900)
+    rf = c.absorb_go(foutpath, outputf)
+    if rcf != 0 and not rf.get("violations"):
+        raise vlib.Infra("field harness failed:\n" + outputf[-3000:])
     c.exhaustive = True
     c.extra["exhaustive_note"] = ("exhaustive over the abstract models %s: every one of their %d transitions (%d states) is on a replayed walk; "
                                   "the random driver (%d walks x %d calls, %d accounts, %d contracts, %d keys, nesting <= %d) is sampled"
